@@ -339,6 +339,59 @@ def downToFreq (f : List Rat → Rat) (s : Src) (fq : Float) (m : Option Method)
     | some (.error e) => some (.error e)
     | some (.ok t) => some (downTo f s t (some m) wh)
 
+/-! ### `int(1e9 / frequency)` once more, exactly (rationals): what the theorems speak about -/
+
+/-- Round half to even of `n / d` (`d > 0`) to a natural number. -/
+def roundHalfEven (n d : Nat) : Nat :=
+  let fl := n / d
+  let r := n % d
+  if 2 * r < d then fl else if d < 2 * r then fl + 1 else if fl % 2 = 0 then fl else fl + 1
+
+/-- `int(x)` of the double nearest to `n / d` (IEEE binary64, round to nearest even; `n / d` between the
+    normal range's bounds): 53 significant bits are kept, then the fraction is cut off. -/
+def truncRoundDouble (n d : Nat) : Nat :=
+  if 2 * n < d then 0          -- a quotient below 1/2 rounds to at most 1/2
+  else
+    let L := Nat.log2 (2 * n / d)          -- ⌊log₂ (n/d)⌋ + 1
+    if L ≤ 53 then roundHalfEven (n * 2 ^ (53 - L)) d / 2 ^ (53 - L)
+    else roundHalfEven n (d * 2 ^ (L - 53)) * 2 ^ (L - 53)
+
+/-- `int(1e9 / frequency)` computed exactly: the frequency is the rational value of the double handed in,
+    the quotient is rounded as IEEE division rounds it, `int` truncates toward zero.
+    `none`: |quotient| ≥ 2^62 (outside the model). -/
+def targetOfFreqQ (fq : Rat) : Option (Except Err Int) :=
+  if fq = 0 then some (.error .zeroDiv)
+  else
+    let q := (1000000000 : Rat) / (if fq < 0 then -fq else fq)
+    if q ≥ 4611686018427387904 then none
+    else
+      let v : Int := truncRoundDouble q.num.toNat q.den
+      some (.ok (if fq < 0 then -v else v))
+
+/-- `downsampled_to(frequency, …)` with the exact conversion. -/
+def downToFreqQ (f : List Rat → Rat) (s : Src) (fq : Rat) (m : Option Method) (wh : Option Bool) :
+    Option (Except Err (List Sample)) :=
+  match m with
+  | none => some (.error .value)
+  | some m =>
+    match targetOfFreqQ fq with
+    | none => none
+    | some (.error e) => some (.error e)
+    | some (.ok t) => some (downTo f s t (some m) wh)
+
+/-- The exact rational value of a double given by its bit pattern (`none` for nan / ±inf). -/
+def ratOfBits (b : Nat) : Option Rat :=
+  let sign := b / 2 ^ 63 % 2
+  let ex := b / 2 ^ 52 % 2048
+  let man := b % 2 ^ 52
+  if ex = 2047 then none
+  else
+    let mag : Rat :=
+      if ex = 0 then ((man : Nat) : Rat) / ((2 ^ 1074 : Nat) : Rat)
+      else if ex ≥ 1075 then (((2 ^ 52 + man) * 2 ^ (ex - 1075) : Nat) : Rat)
+      else ((2 ^ 52 + man : Nat) : Rat) / ((2 ^ (1075 - ex) : Nat) : Rat)
+    some (if sign = 1 then -mag else mag)
+
 /-! ### arithmetic -/
 
 inductive Op where
@@ -516,7 +569,7 @@ def handleWin (isTo : Bool) (rest : List String) : Option String :=
   `c04.likewins <src> <refsrc>`              the windows handed to `reduce` by `downsampled_like` + isolated-growth flag
   `c04.getitem <src> <a> <b>`                `self[a:b]` as used inside the downsampling loops
   `c04.tof <src> <reduce> <where> <method> <frequency bits>`   `downsampled_to` from the frequency (double)
-  `c04.step <frequency bits>`                `int(1e9 / frequency)`
+  `c04.step <frequency bits>`                `int(1e9 / frequency)`: `ok <on the double> <exactly>`
   `c04.neg <src>`                            `-a`
   `c04.ariths <op> <0|1> <p/q> <src>`         `a <op> x` / (1:) `x <op> a` for a scalar
   `c04.arith3 <op1> <op2> <srcA> <srcB> <srcC>`   `(a <op1> b) <op2> c`
@@ -563,16 +616,26 @@ def handle : List String → Option String
   | "c04.tof" :: rest => do
     let (s, rest) ← mkSrc? rest
     match rest with
-    | [r, w, m, fq] =>
+    | [r, w, m, fqs] =>
       let r ← reduce? r
-      let fq ← float? fq
-      (downToFreq r.apply s fq (method? m) (where? w)).map showRes
+      let fq ← float? fqs
+      let bits ← (fqs.drop 1).toString.toNat?
+      -- the conversion is done twice: on the double (Lean `Float`) and exactly (`targetOfFreqQ`); they must agree
+      let viaFloat := downToFreq r.apply s fq (method? m) (where? w)
+      match viaFloat, (ratOfBits bits).bind fun q => downToFreqQ r.apply s q (method? m) (where? w) with
+      | some a, some b =>
+        if showRes a = showRes b then some (showRes a) else some ("conversion-mismatch " ++ showRes a ++ " / " ++ showRes b)
+      | some a, none => some (showRes a)
+      | none, _ => none
     | _ => none
-  | ["c04.step", fq] => do
-    let fq ← float? fq
-    match ← targetOfFreq fq with
-    | .ok t => some ("ok " ++ toString t)
-    | .error e => some (showErr e)
+  | ["c04.step", fqs] => do
+    let fq ← float? fqs
+    let bits ← (fqs.drop 1).toString.toNat?
+    let sh := fun (r : Option (Except Err Int)) => match r with
+      | some (.ok t) => toString t
+      | some (.error e) => showErr e
+      | none => "outside"
+    some ("ok " ++ sh (targetOfFreq fq) ++ " " ++ sh ((ratOfBits bits).bind targetOfFreqQ))
   | "c04.byby" :: rest => do
     let (s, rest) ← mkSrc? rest
     match rest with
